@@ -224,11 +224,11 @@ func propMain(id string, args []string) int {
 			os.MkdirAll(rdir, 0o755)
 			rpath := filepath.Join(rdir, fmt.Sprintf("%s_%d.json", v.Harness, nReplayed))
 			rf := &ReplayFile{Property: spec.ID, Harness: v.Harness, Pkg: pkgOf[v.Harness], Kind: v.Kind, Msg: v.Msg, Site: v.Site, Pos: v.Pos,
-				Stack: v.Stack, Nd: v.Nd, PathCond: v.PathCond, Params: T.Params, Repeat: repeatFor(v)}
+				Stack: v.Stack, Nd: v.Nd, PathCond: v.PathCond, Params: T.Params, Repeat: repeatFor(v), Delays: v.Delays}
 			writeReplayFile(rpath, rf)
 			scratch, _ := os.MkdirTemp("", "vcheck-replay-")
 			to := 60 * time.Second
-			ok, out, rerr := runNativeN(relPkg(pkgOf[v.Harness]), v.Harness, rpath, scratch, to, repeatFor(v))
+			ok, out, rerr := runSchedule(relPkg(pkgOf[v.Harness]), v, rpath, scratch, to)
 			os.RemoveAll(scratch)
 			rf.Output = tail(out, 25)
 			rec := map[string]interface{}{"harness": v.Harness, "kind": v.Kind, "msg": v.Msg, "site": v.Site, "reproduced": ok, "replay": rpath}
